@@ -58,7 +58,7 @@ Inductive member :=
 Definition member_path (m : member) : list seg :=
   match m with MWhiteout p => p | MOpaque d => d | MEntry p _ => p end.
 
-(* size limit: "larger files are ignored" *)
+(* size limit: a file at or above MaxFileBytes is never exposed (the contract C10 states) *)
 Definition classify (maxb : Z) (layer : nat) (e : entry) : option member :=
   match norm_name (e_name e) with
   | None => None
@@ -73,7 +73,7 @@ Definition classify (maxb : Z) (layer : nat) (e : entry) : option member :=
                            se_size := Z.of_nat (length c); se_content := c; se_target := t; se_layer := layer |} in
         match e_kind e with
         | KDir => Some (MEntry sg (mk SKDir [] []))
-        | KReg => if Z.of_nat (length (e_content e)) >? maxb then None
+        | KReg => if Z.of_nat (length (e_content e)) >=? maxb then None
                   else Some (MEntry sg (mk SKReg (e_content e) []))
         | KSym => Some (MEntry sg (mk SKSym [] (e_target e)))
         | KHard | KOther => None
@@ -233,7 +233,6 @@ Definition entry_wellformed (maxb : Z) (e : entry) : bool :=
       let b := last sg [] in
       negb (str_eqb b s_opq) &&
       negb (str_eqb b s_wh) &&
-      negb (Z.of_nat (length (e_content e)) =? maxb) &&
       match e_kind e with
       | KDir => negb (has_prefix s_wh b)
       | KReg => true
@@ -250,7 +249,7 @@ Definition dmember_of (maxb : Z) (e : entry) : option dmember :=
       if has_prefix s_wh b then Some {| dm_path := removelast sg ++ [skipn 4%nat b]; dm_class := DCWhiteout |}
       else match e_kind e with
            | KDir => Some {| dm_path := sg; dm_class := DCDir |}
-           | KReg => if Z.of_nat (length (e_content e)) >? maxb then None
+           | KReg => if Z.of_nat (length (e_content e)) >=? maxb then None
                      else Some {| dm_path := sg; dm_class := DCFile |}
            | _ => Some {| dm_path := sg; dm_class := DCFile |}
            end
@@ -281,21 +280,19 @@ Fixpoint parents_explicit (seen : list (list seg)) (ms : list dmember) : bool :=
       parents_explicit (match dm_class m with DCDir => dm_path m :: seen | _ => seen end) r
   end.
 
-(* relative depth of b below a (0 when not strictly below) *)
-Definition rel_depth (a b : list seg) : nat := if strictly_below a b then length b - length a else 0.
+(* across layers.  lower = members of all older layers, upper = members of all newer layers.
+   A whiteout or non-directory at w hides what older layers have below w -- unless a newer layer makes
+   w a directory again (explicitly, or by having a member below it): the implementation then shows the
+   older contents again (known finding whiteout-then-recreate-resurrects). *)
+Definition recreated_above (w : list seg) (upper : list dmember) : bool :=
+  existsb (fun u => strictly_below w (dm_path u) ||
+                    (segs_eqb w (dm_path u) && match dm_class u with DCDir => true | _ => false end)) upper.
 
-(* across layers.  lower = members of all older layers, upper = members of all newer layers *)
 Definition destructive_ok (lower upper : list dmember) (m : dmember) : bool :=
   match dm_class m with
   | DCDir => true
-  | DCFile => all_true (fun l => negb (strictly_below (dm_path m) (dm_path l))) lower
-  | DCWhiteout =>
-      all_true (fun l => Nat.leb (rel_depth (dm_path m) (dm_path l)) 1) lower &&
-      (all_true (fun l => negb (strictly_below (dm_path m) (dm_path l))) lower
-       || all_true (fun u => match dm_class u with
-                             | DCWhiteout => true
-                             | _ => negb (is_prefix (dm_path m) (dm_path u))
-                             end) upper)
+  | _ => all_true (fun l => negb (strictly_below (dm_path m) (dm_path l))) lower
+         || negb (recreated_above (dm_path m) upper)
   end.
 
 Fixpoint cross_ok (lower : list dmember) (layers : list (list dmember)) : bool :=
@@ -305,15 +302,16 @@ Fixpoint cross_ok (lower : list dmember) (layers : list (list dmember)) : bool :
   end.
 
 (* final view only: removeUnnecessaryFileNodes removes every whiteout node with pathtree.Remove,
-   which also deletes the parent directory (depth >= 2) when that was its last child.  Safe when the
-   parent of every nested whiteout target still has a child in the final view. *)
+   which also deletes the parent directory when that is NESTED (depth >= 2) and the whiteout node was
+   its last child (known finding empty-dir-after-whiteout-vanishes).  Top-level directories never
+   disappear.  Safe when the nested parent of every whiteout target keeps a child in the final view. *)
 Definition final_prune_safe (cfg : config) (im : image) : bool :=
   let fin := view_spec cfg im (length (init_slots im) - 1) in
   all_true (all_true (fun m => match dm_class m with
                                | DCWhiteout =>
                                    match removelast (dm_path m) with
-                                   | [] => true
-                                   | par => match s_children fin par with [] => false | _ => true end
+                                   | (_ :: _ :: _) as par => match s_children fin par with [] => false | _ => true end
+                                   | _ => true
                                    end
                                | _ => true
                                end))
